@@ -43,6 +43,7 @@ def maxvol(A, e=1.05, k=100):
     if n <= r:
         raise ValueError('Input matrix should be "tall"')
 
+    A = np.asarray(A, dtype=float)
     P, L, U = lu(A, check_finite=False)
     I = P[:, :r].argmax(axis=0)
     Q = solve_triangular(U, A.T, trans=1, check_finite=False)
